@@ -19,7 +19,7 @@ Definition open_query (s : state) (i : nat) (h : host) : Prop :=
             a_page a = page_no s.     (* an execution of the CURRENT page fetch *)
 
 Lemma step_resp_query c s i r h : open_query s i h ->
-  step c s (Resp i r) = set_result c (set_attempts s (mark_done i (attempts s))) h r.
+  step c s (Resp i r) = resp_current c (set_attempts s (mark_done i (attempts s))) h r.
 Proof. intros (a & N & D & P & <- & Pg). cbn [step]. rewrite N, D, P, Pg, Nat.eqb_refl. reflexivity. Qed.
 
 (* _handle_retry_decision for RETRY / RETRY_NEXT_HOST on any state S: counter, level, hand-over to the executor *)
@@ -47,7 +47,7 @@ Proof.
 Qed.
 
 (* ---- the response of a retryable failure: exactly one consultation, with the documented arguments *)
-Lemma retryable_step c s i h k tag : open_query s i h ->
+Lemma retryable_step c s i h k tag : open_query s i h -> inline_retry c = false ->
   let '(d, dcl) := pol c (nconsult s) k tag (retries s) (clarg s k) in
   exists s1, step c s (Resp i (RRetryable k tag))
              = (s1, [Consult (nconsult s) h k tag (retries s) (clarg s k) d dcl; ErrSet h (EResp k tag)])
@@ -63,7 +63,7 @@ Lemma retryable_step c s i h k tag : open_query s i h ->
                   queue s1 = queue s /\ retries s1 = retries s /\ msg_cl s1 = msg_cl s
      end.
 Proof.
-  intros O. rewrite (step_resp_query c s i _ h O). cbn [set_result].
+  intros O Inl. rewrite (step_resp_query c s i _ h O). cbn [resp_current]. rewrite Inl. cbn [set_result].
   change (if request_error_kind k then msg_cl (set_attempts s (mark_done i (attempts s))) else None) with (clarg s k).
   cbn [nconsult retries set_attempts].
   destruct (pol c (nconsult s) k tag (retries s) (clarg s k)) as [d dcl].
@@ -107,10 +107,12 @@ Qed.
 Lemma walk_no_consult p s b s' ev e : walk s p b = (s', ev) -> In e ev -> is_consult e = false.
 Proof.
   intros W Hin. apply walk_walked in W.
-  destruct W as [sk h rest Hp Hsk Hh Hplan Hcons Hev Hatt Hexc Harm | Hsk Hplan Hcons Hev Hatt Hexc Harm];
+  destruct W as [sk h rest Hp Hsk Hh Hplan Hcons Hev Hatt Hexc Harm | Hsk Hplan Hcons Hev Hatt Hexc Harm
+                | sk rest Hp Hne Hsk Hplan Hcons Hev Hatt Hel Hexc Harm];
     rewrite Hev in Hin.
   - apply in_app_iff in Hin. destruct Hin as [Hin|[<-|[]]]; [|reflexivity].
     apply in_map_iff in Hin. destruct Hin as (y & <- & _). reflexivity.
+  - apply in_map_iff in Hin. destruct Hin as (y & <- & _). reflexivity.
   - apply in_map_iff in Hin. destruct Hin as (y & <- & _). reflexivity.
 Qed.
 
@@ -153,14 +155,21 @@ Proof.
     destruct (a_prep a) eqn:P; [inversion H; subst; destruct Hin|].
     destruct (Nat.eqb (a_page a) (page_no s)) eqn:Pg; [|inversion H; subst; destruct Hin].
     apply Nat.eqb_eq in Pg.
-    destruct (set_result_consult _ _ _ _ _ _ _ _ _ _ _ _ _ _ H Hin) as (-> & -> & -> & -> & -> & E).
-    exists i. split; [reflexivity|]. split; [exists a; auto 6|]. auto.
+    destruct (resp_current_cases _ _ _ _ _ _ H) as [H'|(k1 & tag1 & dcl1 & reuse & s2 & ev2 & -> & I & Pl & F & Sh & R & -> & ->)].
+    + destruct (set_result_consult _ _ _ _ _ _ _ _ _ _ _ _ _ _ H' Hin) as (-> & -> & -> & -> & -> & E).
+      exists i. split; [reflexivity|]. split; [exists a; auto 6|]. auto.
+    + destruct Hin as [Hin|Hin].
+      * inversion Hin; subst. exists i. split; [reflexivity|]. split; [exists a; auto 6|].
+        cbn [nconsult retries set_attempts]. repeat split; auto.
+      * exfalso. apply in_app_iff in Hin. destruct Hin as [Hin|[Hin|[]]]; [|discriminate].
+        apply (run_task_no_consult _ _ _ _ _ _ R) in Hin. discriminate.
   - destruct (nth_error (queue s) k0) as [t|]; [|inversion H; subst; destruct Hin].
     exfalso. apply (run_task_no_consult _ _ _ _ _ _ H) in Hin. discriminate.
   - exfalso. unfold spec_fire in H.
     destruct (negb (spec_armed s)); [inversion H; subst; destruct Hin|].
     destruct (completed (set_spec s false (spec_left s))); [inversion H; subst; destruct Hin|].
     destruct (attempts (set_spec s false (spec_left s))); [inversion H; subst; destruct Hin|].
+    destruct (elapsed (set_spec s false (spec_left s))); [inversion H; subst; destruct Hin|].
     destruct (send_request (set_spec s false (spec_left s)) false) as [s1 ev1] eqn:W. inversion H; subst.
     apply (walk_no_consult _ _ _ _ _ _ W) in Hin. discriminate.
   - inversion H; subst. destruct Hin.
@@ -187,8 +196,9 @@ Lemma send_request_cframe s b s' ev : send_request s b = (s', ev) -> cframe s s'
 Proof.
   intros W. pose proof (walk_frame_ok _ _ _ _ _ W) as F. apply walk_walked in W. destruct F.
   repeat split; auto.
-  destruct W as [sk h rest Hp Hsk Hh Hplan Hcons Hev Hatt Hexc Harm | Hsk Hplan Hcons Hev Hatt Hexc Harm];
-    rewrite Harm; [auto|destruct b; [discriminate|auto]].
+  destruct W as [sk h rest Hp Hsk Hh Hplan Hcons Hev Hatt Hexc Harm | Hsk Hplan Hcons Hev Hatt Hexc Harm
+                | sk rest Hp Hne Hsk Hplan Hcons Hev Hatt Hel Hexc Harm];
+    rewrite Harm; [auto|destruct b; [discriminate|auto]|destruct (borrowed s'); [discriminate|auto]].
 Qed.
 
 Lemma qon_cframe s h m cz s' ev : query_or_next s h m cz = (s', ev) -> cframe s s'.
@@ -304,6 +314,12 @@ Proof.
       inversion H; subst. apply sbo_counted, fail_with_same.
 Qed.
 
+Lemma retry_count_app a b : retry_count (a ++ b) = retry_count a + retry_count b.
+Proof. unfold retry_count. rewrite filter_app, app_length. lia. Qed.
+
+Lemma consults_app a b : consults (a ++ b) = consults a ++ consults b.
+Proof. unfold consults. apply filter_app. Qed.
+
 (* Spec is the only step that can arm the speculative timer or consume the speculative plan *)
 Lemma step_counted c s o s' ev : step c s o = (s', ev) ->
   counted s s' ev /\ (o <> Spec -> is_next_page o = false ->
@@ -321,7 +337,17 @@ Proof.
     + inversion H; subst. destruct (submit_frame (set_attempts s (mark_done i (attempts s))) (TAfterPrepare (a_host a) r)) as (A1 & B1 & C1 & D1).
       unfold counted, retry_count. cbn. rewrite A1, B1. cbn. repeat split; auto; lia.
     + destruct (Nat.eqb (a_page a) (page_no s)); [|inversion H; subst; unfold counted, retry_count; cbn; repeat split; auto; lia].
-      apply set_result_counted in H. destruct H as (C & L & A). split; [exact C|intros _ _; auto].
+      destruct (resp_current_cases _ _ _ _ _ _ H) as [H'|(k1 & tag1 & dcl1 & reuse & s2 & ev2 & -> & I & Pl & F & Sh & R & -> & ->)].
+      * apply set_result_counted in H'. destruct H' as (C & L & A). split; [exact C|intros _ _; auto].
+      * pose proof (run_task_cframe _ _ _ _ _ R) as (F1 & F2 & F3 & F4 & _).
+        destruct (no_consult_counts ev2) as [Rc Cc]; [intros e He; eapply run_task_no_consult; eauto|].
+        split.
+        -- unfold counted. cbn [retries nconsult set_err]. rewrite F1, F2.
+           cbn [retries nconsult bump_counters tick_consult set_attempts].
+           match goal with |- context [?c0 :: ev2 ++ [?e0]] => change (c0 :: ev2 ++ [e0]) with ([c0] ++ ev2 ++ [e0]) end.
+           rewrite !retry_count_app, !consults_app, !app_length, Rc, Cc.
+           destruct reuse; unfold retry_count, consults; cbn; split; lia.
+        -- intros _ _. cbn [spec_left spec_armed set_err]. split; [exact F3|exact F4].
   - destruct (nth_error (queue s) k0) as [t|].
     + pose proof (run_task_cframe _ _ _ _ _ H) as F. split.
       * apply (counted_frame (set_queue s (remove_nth k0 (queue s))) s' ev F).
@@ -334,6 +360,9 @@ Proof.
     destruct (negb (spec_armed s)); [inversion H; subst; apply Triv; reflexivity|].
     destruct (completed (set_spec s false (spec_left s))); [inversion H; subst; apply Triv; reflexivity|].
     destruct (attempts (set_spec s false (spec_left s))); [inversion H; subst; apply Triv; reflexivity|].
+    destruct (elapsed (set_spec s false (spec_left s))).
+    { inversion H; subst. destruct (on_timeout_same (set_spec s false (spec_left s))) as [[_ F]|[_ E]];
+        [apply Triv; [apply (sbo_retries _ _ F)|apply (sbo_ncons _ _ F)]|rewrite E; apply Triv; reflexivity]. }
     destruct (send_request (set_spec s false (spec_left s)) false) as [s1 ev1] eqn:W. inversion H; subst.
     pose proof (send_request_cframe _ _ _ _ W) as (F1 & F2 & _).
     assert (C1 : counted s s1 ev).
@@ -349,12 +378,6 @@ Proof.
     destruct (no_consult_counts ev) as [Rc C]; [intros e He; eapply walk_no_consult; eauto|].
     unfold counted. rewrite Rc, C, F1, F2, R, N. cbn. split; lia.
 Qed.
-
-Lemma retry_count_app a b : retry_count (a ++ b) = retry_count a + retry_count b.
-Proof. unfold retry_count. rewrite filter_app, app_length. lia. Qed.
-
-Lemma consults_app a b : consults (a ++ b) = consults a ++ consults b.
-Proof. unfold consults. apply filter_app. Qed.
 
 Lemma exec_counted c : forall ops s s' ev, exec c s ops = (s', ev) -> counted s s' ev.
 Proof.
